@@ -478,11 +478,17 @@ def judge_generate_draws(spec) -> Outcome:
 
     n, r, types, np_seed = spec['n'], spec['r'], spec['types'], spec['np_seed']
     names = [f'v{i}' for i in range(len(types))]
-    out.nontrivial = len(set(types)) >= 2
+    # the dictionary name -> type may list the variables in another order than `names` (the library itself passes the
+    # sorted names and a dictionary in order of appearance in the formula)
+    order = [i % len(names) for i in spec.get('dict_order', range(len(names)))]
+    order = list(dict.fromkeys(order + list(range(len(names)))))
+    type_dict = {names[i]: types[i] for i in order}
+    out.nontrivial = len(set(types)) >= 2 and list(type_dict) != names
+    out.classes.append('dict_order_differs' if list(type_dict) != names else 'dict_order_same')
     d = db.Database('t', pd.DataFrame({'x': np.arange(n, dtype=float)}))
     np.random.seed(np_seed)
     try:
-        table = d.generate_draws(dict(zip(names, types)), names, r)
+        table = d.generate_draws(type_dict, names, r)
     except Exception as e:  # noqa
         out.fail('generate_draws:raises', f'generate_draws({types},{r}) on {n} rows raised {e!r}')
         return out
@@ -504,6 +510,7 @@ def strat_generate_draws(tier):
         n=st.integers(1, 6), r=st.integers(1, 10).map(lambda k: 2 * k),
         types=st.lists(st.sampled_from(ALL_TYPES), min_size=1, max_size=4),
         np_seed=st.integers(0, 2**31 - 1),
+        dict_order=st.lists(st.integers(0, 3), min_size=0, max_size=4),
     ))
 
 
